@@ -9,4 +9,6 @@ import LdkModel.Props.C16
 #print axioms Ldk.C16.recompute_fees_sound
 #print axioms Ldk.C16.final_raise_pays_policy_fee
 #print axioms Ldk.C16.raise_is_reported_as_fee
+#print axioms Ldk.C16.min_contribution_covers
+#print axioms Ldk.C16.path_count_bounded
 #print axioms Ldk.C16.recompute_none_only_on_fee_overflow
